@@ -222,7 +222,12 @@ columnConstraint:
 	DEFAULT signedNumber {
 		$$ = ccDefault($2)
 	} |
-	DEFAULT literal {
+	DEFAULT tBare {
+		// TRUE and FALSE are the integers 1 and 0, any other bare word is a
+		// string (as in SQLite)
+		$$ = ccDefault(bareDefault($2))
+	} |
+	DEFAULT tLiteral {
 		$$ = ccDefault($2)
 	} |
 	DEFAULT NULL {
